@@ -142,7 +142,11 @@ impl Iterator for PossibleDoFiles {
             DoFilesState::First(t) => {
                 let result = {
                     let dirname = t.parent().unwrap_or(&t);
-                    let filename = t.file_name().unwrap();
+                    let filename = match t.file_name() {
+                        Some(filename) => filename,
+                        // "/" names no file: there is no script to build it.
+                        None => return None,
+                    };
                     let mut do_file = filename.to_os_string();
                     do_file.push(".do");
                     Some(DoFile {
